@@ -42,6 +42,7 @@ import CtyModel.Lemmas.MsgpackMarks
 import CtyModel.Lemmas.d16Text
 import CtyModel.Lemmas.d16SetLemmas
 import CtyModel.Lemmas.d16MarshalLemmas
+import CtyModel.Lemmas.d16KnownLen
 import CtyModel.Props.C08
 import CtyModel.Generated.Limits
 namespace CtyModel
@@ -395,6 +396,28 @@ theorem refinement_kept_not_dropped :
     rintro ⟨lo', hi', heq, hb, _⟩
     cases heq
     exact absurd hb.1 (by decide)
+
+/-- /repo bb6ac26: a refinement map that describes a LIST OF KNOWN LENGTH — "not null" and two equal
+positive length bounds, which the refinement builder would turn into a known list of that many
+unknown elements, allocated on the word of the input — is never decoded to a value, whatever else
+the map holds (`knownLenList` follows the three variables the Go loop keeps).  `Marshal` never writes
+such a map: a value refined that way is already known. -/
+theorem known_length_list_refused (E : Ext) (e : Ty) (len n : Nat) (stream : List Item) (h1 : 1 < len)
+    (h2 : len ≤ maxExtLen) (hk : knownLenList (.list e) n stream = true) (v : Value) :
+    unmarshal E (.ext unknownWithRefinementsExt len (.map n) stream) (.list e) ≠ .ok v :=
+  knownLen_refused E e len n stream h1 h2 hk v
+
+/-- Regression (the witness of the repaired finding of C17, 2^22 announced elements in 18 bytes, and
+its neighbours): refused with an error; equal bounds WITHOUT "not null", or different bounds, still
+decode to an unknown list. -/
+theorem known_length_list_regression :
+    resIsErr (Unmarshal E0 (.ext 12 7 (.map 3) [.int 1, .bool false, .int 5, .int 2, .int 6, .int 2]) (.list .string)) = true ∧
+    resIsErr (Unmarshal E0 (.ext 12 13 (.map 3) [.int 1, .bool false, .int 5, .uint 4194304, .int 6, .uint 4194304])
+      (.list .string)) = true ∧
+    resIsUnknown (Unmarshal E0 (.ext 12 5 (.map 2) [.int 5, .int 2, .int 6, .int 2]) (.list .string)) = true ∧
+    resIsUnknown (Unmarshal E0 (.ext 12 7 (.map 3) [.int 1, .bool false, .int 5, .int 2, .int 6, .int 3]) (.list .string)) = true ∧
+    resIsUnknown (Unmarshal E0 (.ext 12 7 (.map 3) [.int 1, .bool false, .int 5, .int 2, .int 6, .int 2]) (.set .string)) = true := by
+  decide
 
 /-- Marked values are rejected with an error (not a panic), whatever the constraint. -/
 theorem marked_rejected (E : Ext) (t vt : Ty) (ms : List String) (p : Payload) :
